@@ -1148,3 +1148,17 @@ def m_filepath_dir(ex, st, args, ins, fn):
         return NotImplemented
     i = p.rfind(b'/')
     return _gopath_clean(p[:i + 1])
+
+
+# ---------------------------------------------------------------- sync/atomic.Value (one slot per Value object)
+@model('(*sync/atomic.Value).Store')
+def m_atomicvalue_store(ex, st, args, ins, fn):
+    if args[1] is None:
+        raise GoPanic('explicit', None, 'sync/atomic: store of nil value into Value')
+    st.ghost[('atomicvalue', args[0].cell, args[0].path)] = args[1]
+    return None
+
+
+@model('(*sync/atomic.Value).Load')
+def m_atomicvalue_load(ex, st, args, ins, fn):
+    return st.ghost.get(('atomicvalue', args[0].cell, args[0].path))
